@@ -49,9 +49,9 @@ KINDS = {
     "ckylm": (["float"], ["p_next", "p_next", "p_next_async", "prob", "p_next_seq"]),
     "boollm_earley": (["bool", "float"], ["p_next", "p_next", "p_next_async", "prob", "p_next_seq"]),
     "boollm_cky": (["bool", "float"], ["p_next", "p_next", "p_next_async", "prob", "p_next_seq"]),
-    "cfg": (["bool", "float", "maxtimes", "real"],
+    "cfg": (["bool", "float", "float", "maxtimes", "real"],
             ["cfgcall", "prefix_weight", "treesum", "materialize", "derivative", "transform", "build_lm",
-             "cfgcall", "prefix_weight"]),
+             "build_lm", "prefix_weight"]),
 }
 KIND_WEIGHTS = [("earley", 3), ("earley_prefix", 2), ("rescaled", 2), ("rescaled_prefix", 1), ("icky", 2),
                 ("earleylm", 3), ("rescaledlm", 3), ("ckylm", 2), ("boollm_earley", 3), ("boollm_cky", 2),
@@ -162,7 +162,11 @@ def generate(rng, tier):
             op["t"] = rng.choice(TRANSFORMS)
             op["args"] = [rng.randrange(4)]
         if q == "build_lm":
-            op["lm"] = rng.choice(LMS)
+            # models that can be built for this semiring (the others raise on
+            # both sides, which tests nothing)
+            ok_lms = LMS if mode == "float" else ["BoolCFGLM", "BoolCFGLM_cky", "Earley", "IncrementalCKY",
+                                                   "BoolCFGLM", "Earley"]
+            op["lm"] = rng.choice(ok_lms)
         if faults["abort"] and rng.random() < 0.25:
             # abort position: a fraction of the query's own length (measured at
             # execution time in a forked copy), or an absolute small count
@@ -585,6 +589,82 @@ def _count_lines(fn):
         return -1
 
 
+class _RefServer:
+    """The stateless model lives in its own process, forked before the shared
+    object exists: it never sees the history (nor process-global state that
+    the history may have touched).  One fresh object per distinct query."""
+
+    def __init__(self, fn):
+        import os
+        import pickle
+
+        self._os, self._pickle = os, pickle
+        r1, w1 = os.pipe()  # parent -> child
+        r2, w2 = os.pipe()  # child -> parent
+        pid = os.fork()
+        if pid == 0:
+            try:
+                os.close(w1)
+                os.close(r2)
+                sys.settrace(None)
+                while True:
+                    req = self._recv(r1)
+                    if req is None:
+                        break
+                    try:
+                        res = fn(req)
+                    except BaseException as e:  # never let the model die silently
+                        res = ("exc", type(e).__name__)
+                    try:
+                        data = pickle.dumps(res)
+                    except Exception:
+                        data = pickle.dumps(("unpicklable", repr(res)[:200]))
+                    os.write(w2, len(data).to_bytes(8, "big"))
+                    off = 0
+                    while off < len(data):
+                        off += os.write(w2, data[off:off + 65536])
+            finally:
+                os._exit(0)
+        os.close(r1)
+        os.close(w2)
+        self.pid, self.w, self.r = pid, w1, r2
+
+    def _recv(self, fd):
+        os = self._os
+        head = b""
+        while len(head) < 8:
+            c = os.read(fd, 8 - len(head))
+            if not c:
+                return None
+            head += c
+        n = int.from_bytes(head, "big")
+        buf = b""
+        while len(buf) < n:
+            c = os.read(fd, min(1 << 20, n - len(buf)))
+            if not c:
+                return None
+            buf += c
+        return self._pickle.loads(buf)
+
+    def ask(self, op):
+        os = self._os
+        data = self._pickle.dumps(op)
+        os.write(self.w, len(data).to_bytes(8, "big") + data)
+        res = self._recv(self.r)
+        if res is None:
+            raise RuntimeError("reference process died")
+        return res
+
+    def close(self):
+        os = self._os
+        try:
+            os.close(self.w)
+            os.close(self.r)
+            os.waitpid(self.pid, 0)
+        except Exception:
+            pass
+
+
 def _show(res, mode):
     if isinstance(res, dict):
         return {str(k): _show(v, mode) for k, v in sorted(res.items(), key=lambda kv: ckey(kv[0]))}
@@ -616,6 +696,25 @@ def execute(sc):
             return tuple(tmap.get(a, a) for a in x)
         return tr
 
+    def _fresh(op):
+        chaos.begin(0, epoch=False)
+        try:
+            cfg2, tmap2 = _user_cfg(ab, pres, mode, sc.get("pre"))
+            obj2 = _build(kind, cfg2)
+            return ("ok", _canon(_do_query(kind, obj2, op, tr_for(tmap2), cfg2), mode))
+        except SimInterrupt:
+            raise
+        except Exception as e:
+            return ("exc", type(e).__name__)
+
+    server = _RefServer(_fresh)
+    try:
+        return _execute_with_model(sc, out, server, ab, kind, mode, sched, pres, tr_for)
+    finally:
+        server.close()
+
+
+def _execute_with_model(sc, out, server, ab, kind, mode, sched, pres, tr_for):
     # the shared object and the user's grammar it was built from
     try:
         with libcall(f"{kind}:build"):
@@ -638,18 +737,7 @@ def execute(sc):
                       op.get("args"), op.get("lm"), op.get("kw"), op.get("obj")])
         if key in ref_cache:
             return ref_cache[key]
-        chaos.begin(0, epoch=False)
-        keep = _counter()
-        try:
-            with libcall("fresh-object"):
-                cfg2, tmap2 = _user_cfg(ab, pres, mode, sc.get("pre"))
-                obj2 = _build(kind, cfg2)
-                r = ("ok", _canon(_do_query(kind, obj2, op, tr_for(tmap2), cfg2), mode))
-        except SimInterrupt:
-            raise
-        except Exception as e:
-            r = ("exc", type(e).__name__)
-        set_counter(keep)
+        r = server.ask({k: v for k, v in op.items() if k not in ("abort", "order_seed")})
         ref_cache[key] = r
         return r
 
